@@ -431,6 +431,32 @@ SCALE_LABELS = ["node:further-page", "node:last-of-page", "node:recycled", "car:
                 "get:split-delete-insert", "put:merge-both"]
 
 
+REENT_PROBES = [("StoreImplReentSwapProbe", "SweeperOk"), ("StoreImplReentReturnProbe", "NoRisk"),
+                ("StoreImplReentSplitProbe", "SweeperOk")]
+
+
+def _has_hook_h1b():
+    try:
+        return "ALDOR_VERIF_GC_PAGES" in open(os.path.join(vlib.SRC, "store.c"), errors="replace").read()
+    except OSError:
+        return False
+
+
+def _nested_collects(path):
+    """Collect events that the driver observed inside a Free or Alloc call of a re-entrant script."""
+    n = 0
+    try:
+        with open(path) as fh:
+            prev = ""
+            for line in fh:
+                if line.startswith('{"ev":"Collect","implicit":true') and not prev.startswith('{"ev":"Config"'):
+                    n += 1
+                prev = line
+    except OSError:
+        pass
+    return n
+
+
 def _gen_cfg(work, base, scens):
     cfg = open(os.path.join(vlib.SPEC, base + ".cfg")).read()
     cfg = cfg.replace("Scens <- ScensMid0", "Scens <- %s" % scens)
@@ -467,14 +493,19 @@ def scale_runs(tier, work, drv, seed):
         groups = [("tree", "ScensThorough", PAR, 1700), ("tree", "ScensBig%d" % v, 2, 900),
                   ("tree", "ScensMid%d" % ((v + 1) % 3), 5, 900), ("sect", "StoreSectDeep", 2, 600)]
         nsect = 6
+    groups.append(("reent", "StoreImplReent", 4, 900))
+    nreent = 2 if tier == "quick" else 8
     drv_to = 600 if tier == "quick" else 1500
 
     def run_one(job):
-        rc, err, to = _run_drv(drv, ["replay", job["script"], job["trace"], job["gc"], 400000], timeout=drv_to)
+        rc, err, to = _run_drv(drv, ["replay", job["script"], job["trace"], job["gc"], 400000], timeout=drv_to, env=job.get("env"))
         _close_trace(job["trace"], rc, to)
         if rc == 2:
             return job, ("error", None, "driver usage/IO error: " + err, None)
-        return job, _validate(job["trace"], cfg="TraceStoreScale")
+        return job, _validate(job["trace"], cfg=job.get("cfg", "TraceStoreScale"))
+
+    def probe(cfg, inv):
+        return cfg, inv, vlib.tlc("StoreImpl", cfg, workers=2, timeout=600, xmx="4g")
 
     def group(g):
         kind, name, workers, to = g
@@ -488,6 +519,43 @@ def scale_runs(tier, work, drv, seed):
                     fh.write(store_scale.tree_script(rec, seed))
                 jobs.append({"kind": "tree", "name": rec["name"], "gc": (i + seed) % 2, "script": base + ".txt",
                              "trace": base + ".ndjson", "rec": {k: rec[k] for k in rec if k != "ops"}, "nops": len(rec["ops"])})
+        elif kind == "reent":
+            # the model of collections that start inside stoFree / stoAlloc: the order the code uses holds (with the
+            # known defects cut off); the probes (steps swapped; no cut; split point) must each be violated
+            with ThreadPoolExecutor(max_workers=4) as ex:
+                fr = ex.submit(vlib.tlc, "StoreImpl", name, workers=workers, timeout=to, xmx="6g")
+                fp = [ex.submit(probe, c, i) for c, i in REENT_PROBES]
+                r = fr.result()
+                probes = [f.result() for f in fp]
+            points = store_scale.gc_points(r.out) if not (r.error or r.violated) else []
+            texts, keys = [], []
+            for pt in points:
+                for vnt in range(nreent):
+                    t = store_scale.reent_script(pt, seed * 17 + vnt)
+                    if t:
+                        texts.append(t)
+                        keys.append((pt, vnt))
+            if texts:
+                base = os.path.join(work, "reent-safe")
+                with open(base + ".txt", "w") as fh:
+                    fh.write("".join(texts))
+                jobs.append({"kind": "reent", "name": "reent-safe", "gc": 1, "script": base + ".txt", "trace": base + ".ndjson",
+                             "cfg": "TraceStoreScale", "keys": keys, "texts": texts, "points": points, "probes": probes, "nops": len(texts)})
+                if _has_hook_h1b():
+                    # the same situations with the collection forced by hook H1b instead of by using up the pages
+                    base = os.path.join(work, "reent-h1b")
+                    t2 = [store_scale.reent_script(pt, seed * 17 + vnt, use_drain=False) for pt, vnt in keys]
+                    with open(base + ".txt", "w") as fh:
+                        fh.write("".join(t2))
+                    jobs.append({"kind": "reent", "name": "reent-h1b", "gc": 1, "script": base + ".txt", "trace": base + ".ndjson",
+                                 "cfg": "TraceStoreScale", "keys": keys, "texts": t2, "points": points, "probes": [], "nops": len(t2),
+                                 "env": {"ALDOR_VERIF_GC_ALWAYS": "1", "ALDOR_VERIF_GC_PAGES": "1:0"}})
+                for kname, text in sorted(store_scale.known_reent_scripts().items()):
+                    base = os.path.join(work, "reent-known-" + kname)
+                    with open(base + ".txt", "w") as fh:
+                        fh.write(text)
+                    jobs.append({"kind": "reent-known", "name": kname, "gc": 1, "script": base + ".txt", "trace": base + ".ndjson",
+                                 "cfg": "TraceStoreScale", "nops": text.count("\n")})
         else:
             r = vlib.tlc("StoreSect", name, workers=workers, timeout=to, xmx="3g")
             entries = store_scale.sect_entries(r.printed) if not (r.error or r.violated) else []
@@ -514,8 +582,9 @@ def scale_apply(chk, res):
     for (kind, name, workers, to), r, results in res:
         chk.add_tlc(name, r)
         if r.violated:
-            chk.violation("the %s violates %s" % ("housekeeping model StoreTree at the real constants" if kind == "tree"
-                                                  else "section arithmetic StoreSect", r.violated),
+            chk.violation("the %s violates %s" % ({"tree": "housekeeping model StoreTree at the real constants",
+                                                   "sect": "section arithmetic StoreSect",
+                                                   "reent": "model of collections inside an operation (StoreImpl, Reentrant)"}[kind], r.violated),
                           r.trace_text, key={"model": name, "inv": r.violated})
             allok = False
             continue
@@ -531,6 +600,55 @@ def scale_apply(chk, res):
             obs = _notes(job["trace"])
             for k in maxobs:
                 maxobs[k] = max(maxobs[k], obs[k])
+            if job["kind"] in ("reent", "reent-known"):
+                info.setdefault("reentrant", {"situations": 0, "scripts": 0, "nested_collections_seen": 0, "known_finding_scripts": 0})
+                ri = info["reentrant"]
+                ri["nested_collections_seen"] += _nested_collects(job["trace"])
+                if job["kind"] == "reent":
+                    ri["situations"] = len(job["points"])
+                    ri["scripts"] += len(job["texts"])
+                    chk.traces += len(job["texts"]) - 1
+                    for pt, vnt in job["keys"]:
+                        chk.case(("reent", job["name"]) + tuple(pt) + (vnt,), nontrivial=True)
+                    for cfgp, inv, rp in job["probes"]:
+                        if rp.error:
+                            raise vlib.MachineryError("probe %s: %s" % (cfgp, rp.error))
+                        chk.states += rp.distinct
+                        chk.transitions += rp.states
+                        if rp.violated != inv:
+                            raise vlib.MachineryError("probe %s: TLC did not report %s violated (got %s): the re-entrant model "
+                                                      "no longer shows this situation" % (cfgp, inv, rp.violated))
+                    if job["name"] == "reent-safe" and len(chk.samples) < 10:
+                        chk.sample({"collection_inside_an_operation": [list(p) for p in job["points"]][:6], "script": job["texts"][0],
+                                    "verdict": verdict})
+                    if not {p[0] for p in job["points"]} >= {"free", "discard"}:
+                        raise vlib.MachineryError("StoreImplReent exported no nested collection inside stoFree / stoAlloc: %s" % job["points"])
+                else:
+                    ri["known_finding_scripts"] += 1
+                if verdict != "accepted":
+                    allok = False
+                    ev = _read_events(job["trace"], max(1, idx - 6), idx)
+                    ev = [e for e in ev if '"n":256,' not in e][-8:]
+                    detail = {"why": why, "event_index": idx, "events": ev}
+                    if job["kind"] == "reent":
+                        nres = 0
+                        with open(job["trace"]) as fh:
+                            for i, line in enumerate(fh, 1):
+                                if i >= idx:
+                                    break
+                                nres += 1 if line.startswith('{"ev":"Reset"') else 0
+                        pt, vnt = job["keys"][nres] if nres < len(job["keys"]) else (None, None)
+                        key = {"mode": "reent", "forced_by": "hook" if job["name"] == "reent-h1b" else "no free page",
+                               "situation": list(pt) if pt else None, "why": _why_kind(why)}
+                        detail["script"] = job["texts"][nres] if nres < len(job["texts"]) else None
+                        chk.violation("a collection that starts inside stoFree / stoAlloc (page request of the free index): "
+                                      "history is not a behaviour of StoreAbs: %s" % why, detail, key=key)
+                    else:
+                        key = {"mode": "reent-known", "history": job["name"], "why": _why_kind(why)}
+                        detail["script"] = open(job["script"]).read()[:600]
+                        chk.violation("a collection that starts inside stoFree / stoAlloc damages the free index (%s): %s"
+                                      % (job["name"], why), detail, key=key)
+                continue
             if job["kind"] == "tree":
                 rec = job["rec"]
                 labels |= set(rec["labels"])
